@@ -88,6 +88,9 @@ def run(module, *, constants=None, defs=None, init="Init", next="Next", spec=Non
     """
     constants = constants or {}
     defs = defs or {}
+    # the timeouts only bound a TLC that hangs; on a loaded machine (checks run side by side) the lattice-point runs
+    # have been seen to take three times their usual time, and a check that gives up is worth nothing
+    timeout = int(timeout * float(os.environ.get("VERIF_TLC_TIMEOUT_SCALE", "3")))
     scratch = tempfile.mkdtemp(prefix="verif-tlc-")
     try:
         for f in os.listdir(SPEC):
